@@ -19,6 +19,7 @@ THEOREM_FILE = "Props/C03.v"
 EXTRA_THEOREM_FILES = []
 EXTRA_THEOREM_FILES += ["Props/C03_src.v"]      # source tie: translated source = model (DESIGN 5.1b)
 EXTRA_THEOREM_FILES.append("Props/C03_src_expand.v")     # SRCC: source tie for strategy/ipv4.py expand_partial_address (DESIGN 5.1b)
+EXTRA_THEOREM_FILES.append("Props/C03_code.v")   # CODB: code-level theorems (the C03 theorems stated about the regenerated definitions)
 BACKENDS = [None, "fallback"]
 NOHOST = 4
 RULE = ("every prefix 0..width of both families x boundary/random values with host bits x notation {a/p, a/netmask, "
